@@ -294,3 +294,114 @@ fn c13_mutex_poison_follows_std() {
     kani::cover!(expect_poison, "poisoned by a panic inside the guard");
     kani::cover!(panicking_at_lock, "guard taken while already panicking: no poison");
 }
+
+// ---------------------------------------------------------------------------------------------
+// cancelled waiter: "an unlock always hands the lock to a live waiter, also when that waiter is
+// being cancelled" (C05 / C09).  The root W blocks in lock() while H holds the mutex; W's park
+// gives up with Err(Canceled) at a solver-chosen moment (before, after or together with the
+// hand-off); H's whole unlock lands at any atomic step of W's give-up hand-shake
+// (is_unparked / set_release / is_unparked / take_release).  W then leaves through the cancel
+// panic.  Afterwards nobody holds the mutex, so it must be free again.
+// ---------------------------------------------------------------------------------------------
+static mut H_GUARD: Option<MutexGuard<'static, u8>> = None;
+static mut H_LEFT: bool = false;
+static mut W_CANCELED: bool = false;
+fn run_h_unlock() {
+    unsafe {
+        H_LEFT = false;
+        let g = H_GUARD.take();
+        drop(g);
+    }
+}
+fn hook_c() {
+    unsafe {
+        if np::DEPTH < MAXD && H_LEFT && kani::any() {
+            np::nested(run_h_unlock);
+        }
+    }
+}
+fn park_model_cancel(b: &Blocker, _timeout: Option<std::time::Duration>) -> Result<(), ParkError> {
+    np::point();
+    let tok = crate::sync::blocking::verif_kani::blocker_token(b);
+    unsafe {
+        // the cancel may arrive at any moment: before the hand-off, or after the waiter was
+        // already unparked (Park reports Canceled in both cases)
+        if kani::any() {
+            W_CANCELED = true;
+            return Err(ParkError::Canceled);
+        }
+        if *tok == 0 && H_LEFT {
+            run_h_unlock();
+        }
+        if kani::any() {
+            W_CANCELED = true;
+            return Err(ParkError::Canceled);
+        }
+        assert!(*tok != 0, "C05: waiter not woken by the unlock");
+        *tok = 0;
+        Ok(())
+    }
+}
+fn cancel_panic_final() -> ! {
+    unsafe {
+        assert!(W_CANCELED, "C09: cancel panic in a waiter that was never cancelled");
+        np::HOOK = None;
+        if H_LEFT {
+            run_h_unlock();
+        }
+        // the cancelled waiter is gone, the holder has released: nobody holds the mutex
+        assert!(*(*M).cnt.as_ptr() == 0, "C05/C09: mutex left locked after a cancelled waiter (lock handed to a dead waiter and not passed on)");
+        match (*M).try_lock() {
+            Err(TryLockError::WouldBlock) => assert!(false, "C05/C09: try_lock refused although nobody holds the mutex"),
+            Ok(g) => std::mem::forget(g),
+            Err(TryLockError::Poisoned(e)) => {
+                assert!(false, "C09: mutex poisoned by a cancellation");
+                std::mem::forget(e)
+            }
+        }
+        kani::cover!(np::PREEMPTS > 0, "the holder's unlock landed inside the cancelled waiter's give-up hand-shake");
+        kani::cover!(np::PREEMPTS == 0, "cancel after / before the hand-off without overlap");
+    }
+    kani::assume(false);
+    unreachable!()
+}
+#[kani::proof]
+#[kani::unwind(4)]
+#[kani::stub(core::sync::atomic::Atomic::<usize>::compare_exchange, sa::usize_cas)]
+#[kani::stub(core::sync::atomic::Atomic::<usize>::fetch_add, sa::usize_fetch_add)]
+#[kani::stub(core::sync::atomic::Atomic::<usize>::fetch_sub, sa::usize_fetch_sub)]
+#[kani::stub(core::sync::atomic::Atomic::<bool>::load, sa::bool_load)]
+#[kani::stub(core::sync::atomic::Atomic::<bool>::store, sa::bool_store)]
+#[kani::stub(core::sync::atomic::Atomic::<bool>::swap, sa::bool_swap)]
+#[kani::stub(may_queue::mpsc::Queue::push, q_push)]
+#[kani::stub(may_queue::mpsc::Queue::pop, q_pop)]
+#[kani::stub(crate::sync::blocking::Blocker::park, park_model_cancel)]
+#[kani::stub(crate::sync::blocking::Blocker::unpark, unpark_model)]
+#[kani::stub(crate::cancel::trigger_cancel_panic, cancel_panic_final)]
+#[kani::stub(crate::coroutine_impl::is_coroutine, is_coroutine_false)]
+#[kani::stub(std::thread::panicking, np::panicking_stub)]
+#[kani::stub(stdpanic::catch_unwind, rt::catch_unwind_stub)]
+#[kani::stub(stdpanic::take_hook, rt::take_hook_stub)]
+#[kani::stub(stdpanic::set_hook, rt::set_hook_stub)]
+#[kani::stub(std::sync::Arc::drop_slow, rt::arc_drop_slow_stub)]
+fn c05_mutex_cancelled_waiter_d1() {
+    let m: &'static Mutex<u8> = Box::leak(Box::new(Mutex::new(0u8)));
+    unsafe {
+        M = m;
+        MAXD = 1;
+        H_GUARD = Some(m.lock().unwrap());
+        H_LEFT = true;
+        np::HOOK = Some(hook_c);
+    }
+    // W: blocks, is cancelled or handed the lock
+    match m.lock() {
+        Ok(g) => unsafe {
+            // not cancelled (or the wake-up won): W holds the lock now
+            assert!(!H_LEFT, "C05: second locker admitted while the first still holds the mutex");
+            np::HOOK = None;
+            drop(g);
+            assert!(*(*M).cnt.as_ptr() == 0);
+        },
+        Err(_) => assert!(false, "C09: Poisoned from a mutex nobody panicked in"),
+    }
+}
